@@ -69,6 +69,8 @@ fn rss_mb() -> u64 {
         .unwrap_or(0)
 }
 
+use crate::genr::case::{cleanup_import_dirs, materialise};
+
 fn observe(text: &str) -> (String, Outcome) {
 
     let (shown, outcome, _) = observe_state(text, &[]);
@@ -199,6 +201,10 @@ impl Property for RefProp {
             "labels": built.program.labels,
             "literals": literals,
         });
+        let files: serde_json::Map<String, Json> = case::import_files(&built.program).into_iter().map(|(n, t)| (n, json!(t))).collect();
+        if !files.is_empty() {
+            case["files"] = Json::Object(files);
+        }
         if let Some((names, state)) = &built.error_state {
             case["error_names"] = json!(names);
             case["error_state"] = json!(format!("value {}", state.show()));
@@ -237,7 +243,7 @@ impl Property for RefProp {
         }
         let nontrivial = (self.nontrivial)(case);
         if !self.twin {
-            let text = case["text"].as_str().unwrap_or("");
+            let text = &materialise(case["text"].as_str().unwrap_or(""), case);
             let v = self.judge_against_reference(text, case, stats);
             if matches!(v, Verdict::Pass) {
                 if nontrivial {
@@ -248,13 +254,13 @@ impl Property for RefProp {
             return v;
         }
         // constant-hiding twins
-        let plain = case["plain"].as_str().unwrap_or("");
+        let plain = &materialise(case["plain"].as_str().unwrap_or(""), case);
         let permitted: Vec<&str> = case["permitted"].as_array().map(|a| a.iter().filter_map(|k| k.as_str()).collect()).unwrap_or_default();
         let expected = case["expected"].as_str().unwrap_or("");
         stats.eval();
         let (p_shown, p_out) = observe(plain);
         for key in ["hidden", "partly_hidden"] {
-            let hidden = case[key].as_str().unwrap_or("");
+            let hidden = &materialise(case[key].as_str().unwrap_or(""), case);
             stats.eval();
             let (h_shown, h_out) = observe(hidden);
             match (&p_out, &h_out) {
@@ -350,6 +356,7 @@ pub fn run(session: &Session, prop: &'static RefProp, rule: &str) -> i32 {
     let evaluated = stats.evaluations.max(1);
     drop(stats);
     session.set_extra("discard_ratio", json!(discarded as f64 / (discarded + evaluated) as f64));
+    cleanup_import_dirs();
     session.finish(
         rule,
         false,
